@@ -14,6 +14,7 @@ import (
 	"bytes"
 	"encoding/binary"
 	"fmt"
+	"runtime/debug"
 	"sort"
 	"strings"
 
@@ -436,6 +437,17 @@ type obsStore struct {
 	before func(apply bool, s consensus.State, blockID types.BlockID)
 	after  func(apply bool, s consensus.State, blockID types.BlockID, ds []MDiff, panicked bool)
 	ids    *IDs
+	// onPanic receives the text of a panic (or memory fault) raised inside the real store call
+	onPanic func(msg string)
+}
+
+func (o *obsStore) panicked(apply bool, s consensus.State, id types.BlockID, p any) {
+	// p was recovered by the deferred function of the store call: record it, observe, re-raise
+	if o.onPanic != nil {
+		o.onPanic(fmt.Sprint(p))
+	}
+	o.after(apply, s, id, nil, true)
+	panic(p)
 }
 
 func (o *obsStore) ApplyBlock(s consensus.State, cau consensus.ApplyUpdate) {
@@ -443,7 +455,7 @@ func (o *obsStore) ApplyBlock(s consensus.State, cau consensus.ApplyUpdate) {
 	done := false
 	defer func() {
 		if !done {
-			o.after(true, s, s.Index.ID, nil, true)
+			o.panicked(true, s, s.Index.ID, recover())
 		}
 	}()
 	o.DBStore.ApplyBlock(s, cau)
@@ -457,7 +469,7 @@ func (o *obsStore) RevertBlock(s consensus.State, cru consensus.RevertUpdate) {
 	done := false
 	defer func() {
 		if !done {
-			o.after(false, s, id, nil, true)
+			o.panicked(false, s, id, recover())
 		}
 	}()
 	o.DBStore.RevertBlock(s, cru)
@@ -478,6 +490,7 @@ type Rig struct {
 	Tainted      bool              // a reverted block left an expiration list permuted (the known class)
 	RevResTaint  bool              // a reverted block carried a revised-and-resolved contract
 	Panicked     bool
+	PanicMsg     string
 	Applies      int
 	Reverts      int
 	UnstableRevs int
@@ -516,7 +529,7 @@ func NewRigWith(c *vh.Case, t *chainx.Tree, ids *IDs, decls map[int]*Decl, db ch
 		return nil, err
 	}
 	r := &Rig{T: t, IDs: ids, Decls: decls, C: c, snaps: map[int]kvx.Image{}, applied: map[int][]MDiff{}, twins: map[int]*twinInfo{}}
-	os := &obsStore{DBStore: store, ids: ids, before: r.before, after: r.after}
+	os := &obsStore{DBStore: store, ids: ids, before: r.before, after: r.after, onPanic: func(m string) { r.PanicMsg = firstLine(m) }}
 	nd := &chainx.Node{Net: t.Net, DB: db, Store: store}
 	nd.CM = chain.NewManager(os, tip)
 	nd.CM.OnReorg(func(ci types.ChainIndex) { nd.Reorgs = append(nd.Reorgs, ci) })
@@ -570,12 +583,20 @@ func (r *Rig) after(apply bool, s consensus.State, blockID types.BlockID, ds []M
 	}
 	if panicked {
 		r.Panicked = true
-		r.C.Op(fmt.Sprintf("%s %d", verb, id), "panic")
-		if decl.RevRes {
-			r.KnownHits++
-			r.C.Oracle(ClassRevRes, "DBStore.%sBlock panicked on block %d, which revises and storage-proves the same v1 contract", title(verb), id)
+		if r.CommitMode {
+			r.C.Op(fmt.Sprintf("%s %d %d", verb, id, b01(r.OnFlag())), "panic")
 		} else {
-			r.C.Oracle("store-panic", "DBStore.%sBlock panicked on block %d (kinds %v)", title(verb), id, r.T.Blocks[id].Kinds)
+			r.C.Op(fmt.Sprintf("%s %d", verb, id), "panic")
+		}
+		switch {
+		case strings.Contains(r.PanicMsg, "fault") || strings.Contains(r.PanicMsg, "invalid memory address"):
+			// e.g. a write into the read-only mmap of a Bolt value returned by Get
+			r.C.Oracle("store-memory-fault", "DBStore.%sBlock on block %d (kinds %v) faulted: %s (the store wrote through a slice it got from the database)", title(verb), id, r.T.Blocks[id].Kinds, r.PanicMsg)
+		case decl.RevRes:
+			r.KnownHits++
+			r.C.Oracle(ClassRevRes, "DBStore.%sBlock panicked on block %d, which revises and storage-proves the same v1 contract: %s", title(verb), id, r.PanicMsg)
+		default:
+			r.C.Oracle("store-panic", "DBStore.%sBlock panicked on block %d (kinds %v): %s", title(verb), id, r.T.Blocks[id].Kinds, r.PanicMsg)
 		}
 		return
 	}
@@ -830,9 +851,11 @@ func keysOf(m map[string][]byte) string {
 
 // Submit calls AddBlocks, recovering a panic.
 func (r *Rig) Submit(batch []int) (res string) {
+	defer debug.SetPanicOnFault(debug.SetPanicOnFault(true))
 	defer func() {
 		if p := recover(); p != nil {
 			r.Panicked = true
+			r.PanicMsg = firstLine(fmt.Sprint(p))
 			res = "panic"
 		}
 	}()
